@@ -372,3 +372,61 @@ func ruleRoleUniform(w *World, r *Report, rule string, pkgs ...string) int {
 	}
 	return n
 }
+
+// FIELD-COPY-COMPLETE: a function that builds a T by copying, field by field, from another T (x.F = y.F for several F)
+// is a copier; a field it does not mention silently gets its zero value in the copy.
+type partialCopy struct {
+	fn      *ssa.Function
+	typ     *types.Named
+	copied  []string
+	missing []string
+	at      ssa.Instruction
+}
+
+func partialCopies(fns []*ssa.Function) []partialCopy {
+	var out []partialCopy
+	for _, fn := range fns {
+		type key struct {
+			base ssa.Value
+			typ  *types.Named
+		}
+		copied := map[key]map[string]bool{}
+		written := map[key]map[string]bool{}
+		first := map[key]ssa.Instruction{}
+		for _, fw := range fieldWrites(fn) {
+			if fw.kind != "store" || fw.owner == nil || fw.base == nil {
+				continue
+			}
+			k := key{fw.base, fw.owner}
+			if written[k] == nil {
+				written[k] = map[string]bool{}
+				copied[k] = map[string]bool{}
+				first[k] = fw.in
+			}
+			written[k][fw.field.Name()] = true
+			if f, sb := loadedField(fw.val); f != nil && sameField(f, fw.field) && sb != fw.base {
+				if namedOf(deref(sb.Type())) == fw.owner {
+					copied[k][fw.field.Name()] = true
+				}
+			}
+		}
+		for k, c := range copied {
+			st, ok := k.typ.Underlying().(*types.Struct)
+			if !ok || len(c) < 2 {
+				continue
+			}
+			var missing, cp []string
+			for i := 0; i < st.NumFields(); i++ {
+				n := st.Field(i).Name()
+				if c[n] {
+					cp = append(cp, n)
+				}
+				if !written[k][n] {
+					missing = append(missing, n)
+				}
+			}
+			out = append(out, partialCopy{fn, k.typ, cp, missing, first[k]})
+		}
+	}
+	return out
+}
